@@ -2,7 +2,7 @@
 //! independent parser).
 
 use crate::chooser::choose;
-use crate::explore::{Cfg, RunCtx, RunOut};
+use crate::explore::{hash64, Cfg, RunCtx, RunOut};
 use crate::runner::{PartDef, PropDef, Tier};
 use omaha_client::version::Version;
 use serde_json::json;
@@ -206,6 +206,40 @@ const PARTS: &[&str] = &[
     "00000000000000000000000000000000000004294967296",
 ];
 
+/// Invalid strings with multi-byte characters at every byte alignment (a message that quotes a
+/// prefix of the rejected input at a fixed byte offset would panic on some of them).
+fn run_multibyte(ctx: &RunCtx) -> RunOut {
+    let ch = ["\u{e9}", "\u{20ac}", "\u{1d11e}"][choose("char_width", 3)];
+    let shape = choose("shape", 4);
+    let mut evals = 0u64;
+    let mut fail: Option<(String, String)> = None;
+    for pad in 0..8usize {
+        for reps in [1usize, 12, 40, 120] {
+            let tail = ch.repeat(reps);
+            let s = match shape {
+                0 => format!("{}{tail}", "9".repeat(pad)),
+                1 => format!("{}.{}.{}{tail}", "0".repeat(pad + 1), "0000000002", "000000003"),
+                2 => format!("1.2.3.{}{tail}", "4".repeat(pad)),
+                _ => format!("{}{tail}.1.2.3.4.5", " ".repeat(pad)),
+            };
+            evals += 1;
+            if let Err(e) = check_string(&s) {
+                fail.get_or_insert(e);
+            }
+        }
+    }
+    let mut out = RunOut::new("multibyte", true, hash64(&(ch, shape)));
+    out.evals = evals;
+    out.nt_evals = evals;
+    if ctx.want_trace {
+        out.trace = Some(json!({"char": ch, "shape": shape, "strings": evals}));
+    }
+    match fail {
+        Some((k, m)) => out.fail(k, m),
+        None => out,
+    }
+}
+
 fn run_tuples(ctx: &RunCtx) -> RunOut {
     // block = (number of parts, first part)
     let n = choose("n_parts", 7);
@@ -335,6 +369,13 @@ fn parts(tier: Tier) -> Vec<PartDef> {
             Cfg::new("C20/part-tuples"),
             json!({"parts": PARTS, "tuple_length": "0..6", "exploration": "every tuple"}),
             run_tuples,
+        ),
+        PartDef::new(
+            "multibyte-strings",
+            Cfg::new("C20/multibyte-strings"),
+            json!({"characters": ["U+E9", "U+20AC", "U+1D11E"], "shapes": ["digits + run", "three zero-padded parts + run", "1.2.3.<digits> + run", "spaces + run + five parts"], "leading_pad": "0..7", "run_lengths": [1, 12, 40, 120],
+                   "oracle": "rejected, never a panic (every byte offset up to ~480 is straddled by a character in some string)", "exploration": "full product"}),
+            run_multibyte,
         ),
         PartDef::new(
             "ordering-and-arrays",
